@@ -1,12 +1,13 @@
 #!/bin/bash
 # dev helper: re-run, for every seeded breaking change, the check that is supposed to catch it
-# (first detecting property in meta.json) with the default quick settings and VERIF_SEED given
+# (first detecting property in meta.json; STEP=k runs every k-th change only) with the default quick settings and VERIF_SEED given
 # (default 1). Prints one line per change.  usage: regress.sh [seed] [filter]
-seed="${1:-1}"; filter="${2:-}"
+seed="${1:-1}"; filter="${2:-}"; step="${STEP:-1}"; n=0
 V="$(cd "$(dirname "$0")/.." && pwd)"; cd "$V"
 for d in seeded/*/; do
   id=$(basename "$d"); [ "$id" = benign ] && continue
   [ -n "$filter" ] && [[ "$id" != *$filter* ]] && continue
+  n=$((n+1)); [ $((n % step)) -ne 0 ] && continue
   prop=$(python3 -c "
 import json,sys
 m=json.load(open('$d/meta.json'))
